@@ -15,7 +15,7 @@ RULE = ('(a) complete enumeration of all non-empty marked subsets (isotropic: le
         '(leaf, direction) entries, n <= 4) on every state of the bounded BFS (depth <= 2) over six small meshes, '
         'realised by indicators 1 on the subset / 1e-9 elsewhere with theta placed so that exactly the subset is the '
         'bulk, plus small-integer indicator vectors whose partial sums hit theta^2 x total exactly; (b) Hypothesis cases: mesh spec x bisection history x 1-3 successive marking steps (iso/aniso, theta '
-        'in (0,1), plain bisections interleaved between the marking steps, indicator recipes: random, ties from a 3-value set, zeros, all equal, one dominant entry, '
+        'in (0,1), indicator arrays in C order, Fortran order, as non-contiguous views and (isotropic) as lists, plain bisections interleaved between the marking steps, indicator recipes: random, ties from a 3-value set, zeros, all equal, one dominant entry, '
         'threshold-exact vectors). Oracle: exact-rational bulk criterion (all admissible shortest prefixes, rounding '
         'band (n+4) ulp) and, for some admissible set, equality of the resulting leaf set with the reference-model '
         'closure (time requests, then space requests on the time halves). Non-trivial = marked set neither empty nor '
@@ -86,7 +86,8 @@ def recipes():
 
 
 def cases(max_ops):
-    mark = st.tuples(st.sampled_from(['iso', 'aniso']), gens.THETAS, recipes()).map(list)
+    lay = st.sampled_from(['C', 'C', 'F', 'view', 'list'])
+    mark = st.tuples(st.sampled_from(['iso', 'aniso']), gens.THETAS, recipes(), lay).map(lambda t: [t[0], t[1], dict(t[2], layout=t[3])])
     # marking steps interleaved with other refinements: an entry ['op', <operation>] is applied unchecked in between
     plain = gens.ops(allow=('t', 'x', 'tx')).map(lambda o: ['op', o, None])
     step = st.one_of(mark, mark, plain)
@@ -170,6 +171,19 @@ def mark_step(live, kind, theta, recipe, rec, case, step):
     boxes = [live.skey(e) for e in leaves]
     two = kind == 'aniso'
     eta, theta = indicators(recipe, n, theta, two)
+    layout = recipe.get('layout', 'C')
+    if layout == 'F':
+        eta = np.asfortranarray(eta)
+    elif layout == 'view':
+        big = np.zeros((2 * n, 4)) if two else np.zeros(3 * n)
+        if two:
+            big[::2, 1:3] = eta
+            eta = big[::2, 1:3]
+        else:
+            big[1::3] = eta
+            eta = big[1::3]
+    elif layout == 'list' and not two:
+        eta = [float(v) for v in eta]
     prev = live.model.copy()
     try:
         with repo.quiet():
@@ -182,7 +196,7 @@ def mark_step(live, kind, theta, recipe, rec, case, step):
         if site == 'harness':
             raise
         rec.violation('C06/%s/exception/%s/%s' % (kind, site, type(ex).__name__),
-                      {'error': repr(ex), 'theta': theta, 'eta': eta.tolist(), 'step': step}, case)
+                      {'error': repr(ex), 'theta': theta, 'eta': np.asarray(eta).tolist(), 'step': step}, case)
         return False
     try:
         live.reseed_model()
@@ -225,7 +239,7 @@ def mark_step(live, kind, theta, recipe, rec, case, step):
     if tie:
         rec.cls('tie_at_cut')
     if not ok:
-        detail = {'theta': theta, 'eta': eta.tolist(), 'step': step, 'admissible_prefix_lengths': ks,
+        detail = {'theta': theta, 'eta': np.asarray(eta).tolist(), 'step': step, 'admissible_prefix_lengths': ks,
                   'n_candidates': len(cands), 'leaves_before': [b.pretty() for b in boxes][:12]}
         if first is not None:
             M, m = first
@@ -314,7 +328,7 @@ def run(ctx):
     for mno, seq, kind, m in ctx.mine(jobs):
         for mask in range(1, 2**m):
             case = {'kind': 'bfs', 'mesh': meshdrive.BFS_MESHES[mno], 'seq': seq,
-                    'marks': [[kind, 0.5, {'r': 'subset', 'mask': mask}]]}
+                    'marks': [[kind, 0.5, {'r': 'subset', 'mask': mask, 'layout': ['C', 'F', 'view'][mask % 3]}]]}
             body(case, rec)
             rec.add('enumerated_subset_cases')
         for pos in range(m):
